@@ -326,10 +326,12 @@ package netpoll
 //@ ghost global sockClosed int
 //@ ghost global sockOpen bool
 //@ func (*TCPAddr).sockaddr
-//@   trusted pure conversion of an address into a socket address (stdlib-derived code, array slicing)
+//@   property C14
+//@   nilable a
 //@   modifies nothing
 //@ func (*UnixAddr).sockaddr
-//@   trusted pure conversion of an address into a socket address
+//@   property C14
+//@   nilable a
 //@   modifies nothing
 //@ func sockaddrToAddr
 //@   trusted pure conversion of a socket address into a net.Addr (slices of array fields)
@@ -339,11 +341,14 @@ package netpoll
 //@ ghost global dlOpened int
 //@ ghost global dlClosed int
 //@ func favoriteAddrFamily
-//@   trusted pure choice of the address family (string indexing, stdlib-derived)
+//@   property C14
+//@   requires len(network) > 0
+//@   ensures family == 2 || family == 10
 //@   modifies nothing
 //@ func internetSocket
 //@   property C14
 //@   requires ctx != nil
+//@   requires len(net) > 0
 //@   requires mbase(pollmanager) && (pollmanager.status == 2 ==> mgood(pollmanager))
 //@   assume pollmanager.status != 1
 //@   ensures (err == nil) == (conn != nil)
@@ -351,11 +356,12 @@ package netpoll
 //@   ensures forall o *FDOperator :: wasalloc(o) ==> o.owned == old(o.owned)
 //@   modifies world, fdopen, closecnt, FDOperator.owned, operatorCache.ocl, operatorCache.ofl, runFailed, wwDetached, ocBase, netFD.dialing, sockFd, sockClosed, sockOpen, nonblock
 //@ func selfConnect
-//@   trusted comparison of the two socket addresses (type assertions on stdlib address types)
+//@   property C14
+//@   requires err == nil ==> conn != nil
 //@   ensures err != nil ==> !result
 //@   modifies nothing
 //@ func spuriousENOTAVAIL
-//@   trusted unwrapping of stdlib error types
+//@   property C14
 //@   ensures err == nil ==> !result
 //@   modifies nothing
 //@ func newTCPConnection
@@ -365,9 +371,11 @@ package netpoll
 //@   ensures (err == nil) == (connection != nil)
 //@   modifies world, key:netpoll.connection.setup, key:netpoll.connection.operator, locker.heldP, locker.heldC, locker.sealed_heldP, FDOperator.owned, operatorCache.ocl, runFailed, ocBase, prepDone, prepRegistered, prepOK, cbRuns, ocTrigR, ocTrigW
 //@   ghost before call (*connection).init#1: assert !wasalloc(arg0); arg0.setup = true
+//@ owned C14 : sysDialer.network sysDialer.address by DialTCP DialUnix
 //@ func (*sysDialer).dialTCP
 //@   property C14 C15
 //@   requires ctx != nil
+//@   requires len(sd.network) > 0
 //@   results tc err
 //@   assume cblist() && mbase(pollmanager) && (pollmanager.status == 2 ==> mgood(pollmanager)) && pollmanager.status != 1
 //@   ensures (err == nil) == (tc != nil)
@@ -375,6 +383,7 @@ package netpoll
 //@   modifies world, fdopen, closecnt, FDOperator.owned, operatorCache.ocl, operatorCache.ofl, runFailed, wwDetached, ocBase, netFD.dialing, sockFd, sockClosed, sockOpen, nonblock, key:netpoll.connection.setup, key:netpoll.connection.operator, locker.heldP, locker.heldC, locker.sealed_heldP, prepDone, prepRegistered, prepOK, cbRuns, ocTrigR, ocTrigW, dlOpened, dlClosed, dlKept, netFD.closed
 //@   loop 1 invariant dlOpened == dlClosed + ite(err == nil, 1, 0) && dlKept == 0 && (err == nil) == (conn != nil) && (err == nil ==> fdopen[conn.fd] && conn.closed == 0)
 //@   loop 1 invariant mbase(pollmanager) && (pollmanager.status == 2 ==> mgood(pollmanager)) && pollmanager.status != 1 && cblist()
+//@   loop 1 invariant len(sd.network) > 0
 //@   note the poller pool and the callback list keep their invariants across calls that do not change them (proved for the functions that do: C18, C05)
 //@   ghost after call (*netFD).Close#1: assume mbase(pollmanager) && (pollmanager.status == 2 ==> mgood(pollmanager)) && pollmanager.status != 1
 //@   ghost after call internetSocket#2: assume mbase(pollmanager) && (pollmanager.status == 2 ==> mgood(pollmanager)) && pollmanager.status != 1
